@@ -16,7 +16,7 @@ func init() {
 func init() {
 	registerProperty(&Property{
 		ID:    "C19",
-		Rules: []string{"required-emitted", "keyword-table", "escape", "codec-no-panic"},
+		Rules: []string{"required-emitted", "keyword-table", "escape", "codec-no-panic", "ref-clear", "containers"},
 		Explanation: "Decides the per-member half of validity preservation: for every kind and every member its meta-schema definition(s) require, the encoder cannot drop the member from a value decoded from a valid document (decided from the Go type, omitempty, the proxy special-casing in MarshalJSON partially evaluated under the definition's own enum constraints, and the definition's constraint on the member); and no member is renamed into something the closed definitions reject (keyword-table).",
 		NotCovered:  "validity of everything else (formats, oneOf selection, uniqueness), validity of expanded schemas' contents; the expansion half (holder either pure $ref or dereferenced with Ref cleared) is decided by ref-clear/containers under C03",
 	})
